@@ -6,4 +6,4 @@ Fixpoint s2t (s : string) : text :=
   | EmptyString => nil
   | String a r => N_of_ascii a :: s2t r
   end.
-Notation "'T' s" := (s2t s%string) (at level 0, s at level 0, only parsing).
+Notation "'tx' s" := (s2t s%string) (at level 0, s at level 0, only parsing).
